@@ -180,7 +180,7 @@ def classify(arg, defs, params_var):
         return "c%g" % arg.value
 
     def pidx(n):
-        if isinstance(n, ast.Subscript) and isinstance(n.value, ast.Name) and n.value.id == params_var and isinstance(n.slice, ast.Constant):
+        if isinstance(n, ast.Subscript) and isinstance(n.value, ast.Name) and (n.value.id in params_var if isinstance(params_var, (set, frozenset)) else n.value.id == params_var) and isinstance(n.slice, ast.Constant):
             return n.slice.value
         return None
 
@@ -222,14 +222,17 @@ EQUIV = {
 
 def branch_ops(ctx, branches):
     fn, loop = parse_loop(ctx)
-    params_var = None
-    for s in loop.body:
-        if isinstance(s, ast.Assign) and isinstance(s.targets[0], ast.Name) and "REGEX_TRANSFORM_PARAMETER" in ast.unparse(s.value):
-            params_var = s.targets[0].id
-    ctx.need(params_var is not None, "R04.3", "Matrix.parse: parameter list variable not found")
+    from ..flow import Taint, regex_calls
+    tokcalls = [c for c, meth, rest in regex_calls(ctx.m, loop.body, lambda p_: "deg|grad|rad|turn" in p_ or "PATTERN_TRANSFORM_UNITS" in p_ or "%" in p_) if meth in ("findall", "finditer")]
+    if not tokcalls:
+        tokcalls = [c for c in ast.walk(loop) if isinstance(c, ast.Call) and any(isinstance(n, ast.Name) and n.id == "REGEX_TRANSFORM_PARAMETER" for n in ast.walk(c))]
+    ctx.need(tokcalls, "R04.3", "Matrix.parse: parameter tokeniser call not found")
+    ptaint = Taint(loop.body, lambda n: any(n is c for c in tokcalls), through_containers=False)
+    params_var = ptaint.names
+    ctx.need(params_var, "R04.3", "Matrix.parse: parameter list variable not found")
     # params = [mag + units for mag, units in params]: number and unit are re-joined
-    joined = any(isinstance(s, ast.Assign) and isinstance(s.targets[0], ast.Name) and s.targets[0].id == params_var and isinstance(s.value, ast.ListComp)
-                 and isinstance(s.value.elt, ast.BinOp) and isinstance(s.value.elt.op, ast.Add) for s in loop.body)
+    joined = any(isinstance(s, ast.Assign) and isinstance(s.targets[0], ast.Name) and s.targets[0].id in params_var and isinstance(s.value, ast.ListComp)
+                 and isinstance(s.value.elt, ast.BinOp) and isinstance(s.value.elt.op, ast.Add) and ptaint.derived(s.value.generators[0].iter) for s in ast.walk(loop))
     ctx.ob("R04.3", "Matrix.parse[number+unit]", joined, "", loop.lineno, "each parameter is its number followed by its unit")
     for name in SPEC_NAMES:
         body = branches.get(name)
